@@ -241,10 +241,21 @@ Qed.
 
 (* one lookahead at the position described by [Hs : src = pre ++ c :: r] and [Hi : i = byte_len pre]:
    the keyword is there ([prefix_of_self]) or its first character differs *)
+(* decide a lookahead by computation when the text at the cursor starts with concrete characters *)
+Ltac look_eval :=
+  match goal with
+  | |- context [prefix_of ?s ?r] =>
+      let b := eval lazy in (prefix_of s r) in
+      match b with
+      | true => change (prefix_of s r) with true
+      | false => change (prefix_of s r) with false
+      end
+  end.
 Ltac look1 Hs Hi :=
   rewrite (look_at _ _ _ _ _ _ Hs Hi);
-  first [ rewrite prefix_of_self
-        | rewrite prefix_of_hd_false by (first [reflexivity | eauto 20 using in_eq, in_cons]) ];
+  first [ look_eval
+        | rewrite prefix_of_self
+        | rewrite prefix_of_hd_false by (first [reflexivity | auto 12 using in_eq, in_cons]) ];
   cbn [sbind is_some ret].
 
 (* normalise the state after [set_ast]/[set_nn] on an explicit [mkSt] *)
